@@ -80,12 +80,13 @@ def implPathMatch (req cpath : Bytes) : Bool :=
 structure Cookie where
   name : Bytes
   value : Bytes
-  attrs : List (Bytes × Bytes)     -- attribute (key, value) pairs in header order, keys as sent
-  expired : Bool                   -- cookies.is_expired(attrs)
+  attrs : List (Bytes × Option Bytes)   -- attribute (key, value) pairs in header order, keys as sent; `none` = no "=value"
+  expired : Bool                        -- cookies.is_expired(attrs)
 deriving DecidableEq, Repr
 
-/-- `attrs[key]` of the case-insensitive `CookieAttrs` multidict: the last value (`_reduce_values`) -/
-def attrGet (key : Bytes) : List (Bytes × Bytes) → Option Bytes
+/-- `key in attrs` / `attrs[key]` of the case-insensitive `CookieAttrs` multidict: `none` if the attribute is absent,
+    otherwise the last value (`_reduce_values`), which is `none` for an attribute sent without "=value" -/
+def attrGet (key : Bytes) : List (Bytes × Option Bytes) → Option (Option Bytes)
   | [] => none
   | (k, v) :: rest =>
     match attrGet key rest with
@@ -94,6 +95,8 @@ def attrGet (key : Bytes) : List (Bytes × Bytes) → Option Bytes
 
 def kDomain : Bytes := [0x64, 0x6f, 0x6d, 0x61, 0x69, 0x6e]   -- "domain"
 def kPath : Bytes := [0x70, 0x61, 0x74, 0x68]                 -- "path"
+def kMaxAge : Bytes := [0x6d, 0x61, 0x78, 0x2d, 0x61, 0x67, 0x65]   -- "max-age"
+def kExpires : Bytes := [0x65, 0x78, 0x70, 0x69, 0x72, 0x65, 0x73]  -- "expires"
 
 structure JKey where
   domain : Bytes
@@ -103,7 +106,9 @@ deriving DecidableEq, Repr
 
 /-- `ckey(attrs, flow)` -/
 def ckey (c : Cookie) (host : Bytes) (port : Nat) : JKey :=
-  { domain := (attrGet kDomain c.attrs).getD host, port := port, path := (attrGet kPath c.attrs).getD [slash] }
+  { domain := match attrGet kDomain c.attrs with | some (some d) => d | _ => host,     -- `attrs.get("domain") is not None`
+    port := port,
+    path := match attrGet kPath c.attrs with | some (some p) => p | _ => [slash] }
 
 abbrev Dict := List (Bytes × Bytes)
 abbrev Jar := List (JKey × Dict)
@@ -159,6 +164,93 @@ def stepJar (jar : Jar) : Event → Jar
   | .req _ _ _ _ => jar
 
 def runJar (jar : Jar) (evs : List Event) : Jar := evs.foldl stepJar jar
+
+/-! ### cookies.get_expiration_ts / is_expired (the clock and the date parser are the only parameters) -/
+
+def isSpace (c : UInt8) : Bool := c = 9 || c = 10 || c = 11 || c = 12 || c = 13 || c = 32 || c = 28 || c = 29 || c = 30 || c = 31
+
+def strip (s : Bytes) : Bytes := ((s.dropWhile isSpace).reverse.dropWhile isSpace).reverse
+
+/-- decimal digits with single underscores between digits (`int()` grammar) -/
+def parseDigits (acc : Nat) (lastDigit : Bool) : Bytes → Option Nat
+  | [] => if lastDigit then some acc else none
+  | c :: rest =>
+    if isDigit c then parseDigits (acc * 10 + (c.toNat - 0x30)) true rest
+    else if c = 0x5f && lastDigit then parseDigits acc false rest
+    else none
+
+/-- Python `int(s)` for an ASCII `str`: `none` = ValueError -/
+def pyInt (s : Bytes) : Option Int :=
+  match strip s with
+  | [] => none
+  | c :: rest =>
+    if c = 0x2b then (parseDigits 0 false rest).map Int.ofNat
+    else if c = 0x2d then (parseDigits 0 false rest).map (fun n => - Int.ofNat n)
+    else (parseDigits 0 false (c :: rest)).map Int.ofNat
+
+/-- `cookies.get_expiration_ts(attrs)`: Max-Age (if `int()` accepts it) before Expires; `dateTs` is
+    `mktime_tz(parsedate_tz(attrs["expires"]))` (`none` when the date does not parse) — email.utils is a parameter -/
+def expirationTs (now : Int) (attrs : List (Bytes × Option Bytes)) (dateTs : Option Int) : Option Int :=
+  match (match attrGet kMaxAge attrs with | some (some v) => pyInt v | _ => none) with
+  | some n => some (now + n)
+  | none =>
+    match attrGet kExpires attrs with
+    | some _ => dateTs
+    | none => none
+
+/-- `cookies.is_expired(attrs)` at clock `now` -/
+def isExpired (now : Int) (attrs : List (Bytes × Option Bytes)) (dateTs : Option Int) : Bool :=
+  match expirationTs now attrs dateTs with
+  | none => false
+  | some t => decide (t ≤ now)
+
+/-- a Set-Cookie as parsed (name, value, attribute pairs) plus the date-parser's verdict on its Expires value -/
+structure RawCookie where
+  name : Bytes
+  value : Bytes
+  attrs : List (Bytes × Option Bytes)
+  dateTs : Option Int
+deriving Repr
+
+def RawCookie.toCookie (now : Int) (r : RawCookie) : Cookie :=
+  { name := r.name, value := r.value, attrs := r.attrs, expired := isExpired now r.attrs r.dateTs }
+
+/-- histories with a clock: every response is processed at its own time -/
+inductive RawEvent where
+  | resp (now : Int) (host : Bytes) (port : Nat) (cookies : List RawCookie)
+  | req (flt : Bool) (host : Bytes) (port : Nat) (path : Bytes)
+deriving Repr
+
+def RawEvent.toEvent : RawEvent → Event
+  | .resp now host port cs => .resp host port (cs.map (RawCookie.toCookie now))
+  | .req f h p pa => .req f h p pa
+
+def runRaw (jar : Jar) (evs : List RawEvent) : Jar := runJar jar (evs.map RawEvent.toEvent)
+
+/-! ### the jar as a function of the history -/
+
+def dictGet (n : Bytes) : Dict → Option Bytes
+  | [] => none
+  | (n', v) :: rest => if n' = n then some v else dictGet n rest
+
+/-- `self.jar[k][n]` if present -/
+def jarGet (jar : Jar) (k : JKey) (n : Bytes) : Option Bytes :=
+  (jarLookup k jar).bind (dictGet n)
+
+/-- the effect of one Set-Cookie on the slot `(k, n)` -/
+def writeCookie (host : Bytes) (port : Nat) (k : JKey) (n : Bytes) (cur : Option Bytes) (c : Cookie) : Option Bytes :=
+  if implDomainMatch host (ckey c host port).domain && decide (ckey c host port = k) && decide (c.name = n) then
+    (if c.expired then none else some c.value)
+  else cur
+
+/-- the last accepted Set-Cookie for `(k, n)` in the history decides: its value, or nothing if it was expired -/
+def lastWriteFrom (cur : Option Bytes) (evs : List Event) (k : JKey) (n : Bytes) : Option Bytes :=
+  evs.foldl (fun cur ev =>
+    match ev with
+    | .resp host port cs => cs.foldl (writeCookie host port k n) cur
+    | .req _ _ _ _ => cur) cur
+
+def lastWrite (evs : List Event) (k : JKey) (n : Bytes) : Option Bytes := lastWriteFrom none evs k n
 
 /-! ### RFC 6265 -/
 
